@@ -34,10 +34,8 @@ GSTAR_HEX = ((Fraction(4, 3), Fraction(2, 3), 0), (Fraction(2, 3), Fraction(4, 3
 
 
 def exc_name(r):
-    exc = r.node.exc
-    if isinstance(exc, ast.Call):
-        exc = exc.func
-    return getattr(exc, "id", getattr(exc, "attr", None))
+    from xfabsa.symeval import raised_name
+    return raised_name(r)
 
 
 def table_of(mod, fname, s_, tmods):
@@ -216,6 +214,7 @@ def analyse_umis(ctx, mod, fn):
     results = {}
     for s_ in range(1, 8):
         ev = Evaluator(mod, inline=True, branch_policy=N.skip_checks_policy)
+        ev.unit_clip_identity = False        # the guard of the arccos is part of what this rule decides (trace / 2 - 1/2 may exceed 1 by rounding)
         ev._modconst = {"ROTATIONS": table}
         out = ev.call_function("Umis", [U1, U2, Rat.const(s_)])
         results[s_] = out if isinstance(out, Arr) else materialise(out)
